@@ -501,30 +501,34 @@ impl<'a, T: ColumnProvider> ExpressionExecutionEngine<'a, T> {
                                         Ok(Value::Timestamp(trunc_timestamp))
                                     }
                                     Err(NonDurationField::Year) => {
+                                        // A truncated local time that does not exist in the time zone is an error, not a panic
                                         let trunc_timestamp = timestamp
-                                            .with_month(1).unwrap()
-                                            .with_day(1).unwrap()
-                                            .with_hour(0).unwrap()
-                                            .with_minute(0).unwrap()
-                                            .with_second(0).unwrap()
-                                            .with_nanosecond(0).unwrap();
+                                            .with_month(1)
+                                            .and_then(|timestamp| timestamp.with_day(1))
+                                            .and_then(|timestamp| timestamp.with_hour(0))
+                                            .and_then(|timestamp| timestamp.with_minute(0))
+                                            .and_then(|timestamp| timestamp.with_second(0))
+                                            .and_then(|timestamp| timestamp.with_nanosecond(0))
+                                            .ok_or(EvaluationError::FailedToTruncate)?;
                                         Ok(Value::Timestamp(trunc_timestamp))
                                     }
                                     Err(NonDurationField::Month) => {
                                         let trunc_timestamp = timestamp
-                                            .with_day(1).unwrap()
-                                            .with_hour(0).unwrap()
-                                            .with_minute(0).unwrap()
-                                            .with_second(0).unwrap()
-                                            .with_nanosecond(0).unwrap();
+                                            .with_day(1)
+                                            .and_then(|timestamp| timestamp.with_hour(0))
+                                            .and_then(|timestamp| timestamp.with_minute(0))
+                                            .and_then(|timestamp| timestamp.with_second(0))
+                                            .and_then(|timestamp| timestamp.with_nanosecond(0))
+                                            .ok_or(EvaluationError::FailedToTruncate)?;
                                         Ok(Value::Timestamp(trunc_timestamp))
                                     }
                                     Err(NonDurationField::Day) => {
                                         let trunc_timestamp = timestamp
-                                            .with_hour(0).unwrap()
-                                            .with_minute(0).unwrap()
-                                            .with_second(0).unwrap()
-                                            .with_nanosecond(0).unwrap();
+                                            .with_hour(0)
+                                            .and_then(|timestamp| timestamp.with_minute(0))
+                                            .and_then(|timestamp| timestamp.with_second(0))
+                                            .and_then(|timestamp| timestamp.with_nanosecond(0))
+                                            .ok_or(EvaluationError::FailedToTruncate)?;
                                         Ok(Value::Timestamp(trunc_timestamp))
                                     }
                                 }
